@@ -56,6 +56,7 @@ def models():
         "ConditionalDiagonalNormal[1]/marker": (lambda: D.ConditionalDiagonalNormal([1]), (1,), "required", True),
         "ConditionalIndependentBernoulli[2]": (lambda: D.ConditionalIndependentBernoulli([2], context_encoder=torch.nn.Linear(4, 2)), (2,), "required", False),
         "MADEMoG[2]/ctx": (lambda: MADEMoG(2, 6, 4, num_blocks=1, num_mixture_components=2), (2,), "required", False),
+        "MADEMoG[2]/ctx/1-component": (lambda: MADEMoG(2, 6, 4, num_blocks=1, num_mixture_components=1), (2,), "required", False),
         "MADEMoG[2]/noctx": (lambda: MADEMoG(2, 6, None, num_blocks=1, num_mixture_components=2), (2,), "none", False),
         "Flow(affine|StandardNormal)": (lambda: FL.base.Flow(TR.PointwiseAffineTransform(shift=0.5, scale=2.0), D.StandardNormal([2])), (2,), "optional", False),
         "Flow(affine|CondNormal)/marker": (marker_flow, (2,), "required", True),
@@ -169,6 +170,24 @@ def task(t):
                         exp = torch.tensor([[int(src[i * int(n) + j][0]) for j in range(int(n))] for i in range(rows)], dtype=rowof.dtype)
                         if not torch.equal(rowof, exp):
                             out["fails"].append(dict(case, clause="row_placement", detail="%s: draws sit under context rows %s, documented %s" % (desc, rowof.tolist(), exp.tolist())))
+                    if kind == "value" and tuple(r.shape) == eshape and rows >= 2 and isinstance(n, int) and n >= 2 and (("MoG" not in name) or name.endswith("/1-component")):
+                        # provenance without markers: under a constant noise stream block i must be what the
+                        # same call returns for context row i alone
+                        orig_randn, orig_rand = torch.randn, torch.rand
+                        const = lambda val: (lambda *size, **k_: torch.full(tuple(size[0]) if len(size) == 1 and isinstance(size[0], (tuple, list, torch.Size)) else tuple(size), val))
+                        torch.randn, torch.rand = const(0.37), const(0.41)
+                        try:
+                            full = m.sample(n, **kw)
+                            singles = [m.sample(n, **dict(kw, context=ctx[i : i + 1])) for i in range(rows)]
+                        except Exception:  # noqa
+                            full = None
+                        finally:
+                            torch.randn, torch.rand = orig_randn, orig_rand
+                        if full is not None and tuple(full.shape) == eshape:
+                            for i in range(rows):
+                                if not torch.allclose(full[i].float(), singles[i][0].float(), atol=1e-5, rtol=1e-5):
+                                    out["fails"].append(dict(case, clause="row_placement", detail="%s under a constant noise stream: block %d is not what the same call returns for context row %d alone (max diff %.3g) - it was generated under other rows" % (desc, i, i, float((full[i].float() - singles[i][0].float()).abs().max()))))
+                                    break
                 elif kind != want:
                     out["fails"].append(dict(case, clause="error_contract", detail="%s: expected %s, got %s" % (desc, want, kind if kind != "value" else "a value of shape %s" % (tuple(r.shape),))))
             elif op == "slp":
